@@ -541,6 +541,17 @@ func packetObligations(c *vf.Ctx, names []string, scopes [][]string) {
 			}
 		}
 	}
+	// a name whose FIRST occurrence lies beyond offset 0x3FFF (after a large RDATA) and is then repeated in every
+	// later section: an encoder that compresses repeated names cannot point that far with 14 bits
+	for _, n := range []int{16300, 16383, 16384, 16500, 40000, 65535} {
+		p := &tpkt{id: uint16(n), flags: 0x8500}
+		p.sec[0] = []rec{std("EARLY", nil, 0, 0)}
+		p.sec[1] = []rec{std("EARLY", nil, 1, 0), std("LATE", []string{"sc"}, 1, 1), std("LATE", []string{"sc"}, 1, 2)}
+		p.sec[1][0].rdata = enum.Counter(n, 5)
+		p.sec[2] = []rec{std("LATE", []string{"sc"}, 2, 0), std("EARLY", nil, 2, 1)}
+		p.sec[3] = []rec{std("LATE", []string{"sc"}, 3, 0), std("OTHER", nil, 3, 1), std("OTHER", nil, 3, 2)}
+		pkts = append(pkts, p)
+	}
 	c.Set("packets", len(pkts))
 	vf.Par(len(pkts), func(i int) {
 		if c.DeadlineExceeded() {
